@@ -72,6 +72,7 @@ Record wf_rec (a : arec) : Prop := {
   wf_alt : opt_ident_ok (r_alt a);
   wf_ins : opt_ident_ok (r_ins a);
   wf_numbers : (finite_f (dec (r_x a)) && finite_f (dec (r_y a)) && finite_f (dec (r_z a)) && finite_f (dec (r_occ a)) && finite_f (dec (r_b a)))%bool = true;
+  wf_ins_tight : match r_ins a with Some t => trim t = t | None => True end;   (* one character of the record *)
   wf_no_tensor : r_atf a = None;
   wf_id : True }.
 
@@ -138,7 +139,7 @@ Definition wrap_res (s : st) (a : arec) : Z :=
   if (Z.eqb (r_resnum a) 0 && Z.eqb (s_last_res s) 9999)%bool then s_res_add s + 10000 else s_res_add s.
 Definition chain_of (s : st) (a : arec) : text := if blank (r_chain a) then letter_of (s_chain_letter s) else r_chain a.
 Definition event_of_record (s : st) (a : arec) : event :=
-  {| e_chain := chain_of s a; e_key := (r_resnum a + wrap_res s a, r_ins a); e_name := trim (r_resname a); e_alt := r_alt a;
+  {| e_chain := chain_of s a; e_key := (r_resnum a + wrap_res s a, option_map upper (r_ins a)); e_name := trim (r_resname a); e_alt := r_alt a;
      e_atom := spec_atom a (wrap_atom s a) (s_next_id s) |}.
 
 Lemma atom_event_of_record s a : wf_rec a -> 0 <= s_next_id s ->
@@ -192,6 +193,9 @@ Proof.
     rewrite (insert_abs (s_cur s) (event_of_record s a)).
     + rewrite S8. f_equal. unfold key_of, event_of_record, e_conf. cbn [e_chain e_key e_name e_alt e_atom].
       rewrite (ident_upper _ (wf_resname a W)), trim_idem, (norm_alt_upper_opt _ (wf_alt a W)).
+      assert (Hi : option_map upper (r_ins a) = upper_opt (r_ins a)).
+      { pose proof (wf_ins_tight a W) as T. unfold upper_opt. destruct (r_ins a) as [ic|]; [|reflexivity]. cbn [option_map]. rewrite T. reflexivity. }
+      rewrite Hi.
       unfold chain_of, blank, letter_of, spec_atom, wrap_atom, wrap_res. rewrite S1, S2, S3, S4, S5, S7. reflexivity.
     + exists (upper (trim (trim (r_resname a)))). cbn [event_of_record e_name]. apply ident_upper. exact (wf_resname a W).
 Qed.
